@@ -195,7 +195,12 @@ class Session:
             return io.BytesIO(op['data'])
         if op['length'] > (8 << 20):
             return blobs.PatternReader(op['cid'], op['length'])
-        return io.BytesIO(blobs.blob(op['cid'], op['length']))
+        data = blobs.blob(op['cid'], op['length'])
+        if isinstance(op['cid'], int) and (op['cid'] * 7 + op['length']) % 3 == 0:
+            # a source stream that holds more than the `length` bytes that make up the file
+            # (a member of a larger container): none of the rest belongs to the image
+            data += bytes((op['cid'] * 31 + 0x5a + k) & 0xff for k in range(1 + (op['cid'] * 13 + op['length']) % 2500))
+        return io.BytesIO(data)
 
     def call(self, op):
         iso = self.iso
